@@ -119,3 +119,23 @@ Definition check_codec (c : ccase) : bool :=
   | CEnc g v o => chk_cenc g v o
   | CBadTy g => match lower g with None => true | Some _ => false end
   end.
+
+(* ---------- Stream state machine (Stream.v): a script of operations on NewStream(bytes, limit) ---------- *)
+From V.C08 Require Import Stream.
+
+Definition obs_eqb (a b : obs) : bool :=
+  match a, b with
+  | BKind k n, BKind k' n' => (k =? k') && (n =? n')
+  | BBytes x, BBytes y => bytes_eqb x y
+  | BNum x, BNum y => x =? y
+  | BBool x, BBool y => Bool.eqb x y
+  | BUnit, BUnit => true
+  | BErr x, BErr y => x =? y
+  | _, _ => false
+  end.
+
+Definition HB (h : string) : obs := BBytes (unhex h).
+
+Definition check_stream (c : string * N * list op * list obs) : bool :=
+  let '(h, limit, ops, o) := c in
+  list_eqb obs_eqb (fst (run ops (new_stream (unhex h) limit))) o.
